@@ -30,8 +30,19 @@ Inductive body :=
 | BHello13 (hrr psk early : bool)                  (* hello selecting TLS 1.3: ServerHello is a HelloRetryRequest / ClientHello has no
                                                       acceptable key share; a PSK is selected; server accepts early data *)
 | BFin (vok : bool)                                (* well-formed Finished; vok: verify_data equals the receiver's own value *)
-| BPlain.                                          (* body of any other message type that its handler accepts *)
-Record hmsg := mkmsg { m_typ : Z; m_body : body }.
+| BPlain                                           (* body of any other message type that its handler accepts *)
+| BHelloNoCookie.                                  (* DTLS ClientHello with an empty cookie (everything before the cookie well formed) *)
+(* DTLS: how the message_seq of a handshake message relates to ssl->lastMsn (parseSSLHandshake, sslDecode.c 2127-2158, 2346-2364) *)
+Inductive mcls :=
+| MExp       (* message_seq = lastMsn + 1: the next message of the peer's sequence *)
+| MZero      (* message_seq = 0 <= lastMsn: let through by the first test ("msn != 0 &&"), decided by the type *)
+| MStale     (* 0 < message_seq <= lastMsn: a retransmission *)
+| MFut.      (* message_seq > lastMsn + 1: arrived early *)
+Definition classify (last msn : Z) : mcls :=
+  if msn >? last + 1 then MFut
+  else if negb (msn =? 0) && (last >=? msn) then MStale
+  else if msn =? last + 1 then MExp else MZero.
+Record hmsg := mkmsg { m_typ : Z; m_body : body; m_cls : mcls }.   (* m_cls is read by DTLS sessions only *)
 
 Inductive input := ICcs | IHs (m : hmsg).
 Inductive item := MCcs | MHs (m : hmsg).                 (* accepted ChangeCipherSpec / handshake messages, in order *)
@@ -56,52 +67,58 @@ Record hst := mkst {
   early : bool;
   tickkeys : bool;
   gotcr : bool;
+  dtls : bool;
+  cookie : bool;
   acc : list item;
   tr : list tent;
   snap : list tent
 }.
 Definition set_server (s : hst) (x : bool) : hst :=
-  mkst x (v13 s) (hs s) (rsec s) (wsec s) (err s) (resumed s) (cauth s) (psk s) (dhe s) (tick s) (status s) (lastccs s) (usingpsk s) (hrr s) (early s) (tickkeys s) (gotcr s) (acc s) (tr s) (snap s).
+  mkst x (v13 s) (hs s) (rsec s) (wsec s) (err s) (resumed s) (cauth s) (psk s) (dhe s) (tick s) (status s) (lastccs s) (usingpsk s) (hrr s) (early s) (tickkeys s) (gotcr s) (dtls s) (cookie s) (acc s) (tr s) (snap s).
 Definition set_v13 (s : hst) (x : bool) : hst :=
-  mkst (server s) x (hs s) (rsec s) (wsec s) (err s) (resumed s) (cauth s) (psk s) (dhe s) (tick s) (status s) (lastccs s) (usingpsk s) (hrr s) (early s) (tickkeys s) (gotcr s) (acc s) (tr s) (snap s).
+  mkst (server s) x (hs s) (rsec s) (wsec s) (err s) (resumed s) (cauth s) (psk s) (dhe s) (tick s) (status s) (lastccs s) (usingpsk s) (hrr s) (early s) (tickkeys s) (gotcr s) (dtls s) (cookie s) (acc s) (tr s) (snap s).
 Definition set_hs (s : hst) (x : Z) : hst :=
-  mkst (server s) (v13 s) x (rsec s) (wsec s) (err s) (resumed s) (cauth s) (psk s) (dhe s) (tick s) (status s) (lastccs s) (usingpsk s) (hrr s) (early s) (tickkeys s) (gotcr s) (acc s) (tr s) (snap s).
+  mkst (server s) (v13 s) x (rsec s) (wsec s) (err s) (resumed s) (cauth s) (psk s) (dhe s) (tick s) (status s) (lastccs s) (usingpsk s) (hrr s) (early s) (tickkeys s) (gotcr s) (dtls s) (cookie s) (acc s) (tr s) (snap s).
 Definition set_rsec (s : hst) (x : bool) : hst :=
-  mkst (server s) (v13 s) (hs s) x (wsec s) (err s) (resumed s) (cauth s) (psk s) (dhe s) (tick s) (status s) (lastccs s) (usingpsk s) (hrr s) (early s) (tickkeys s) (gotcr s) (acc s) (tr s) (snap s).
+  mkst (server s) (v13 s) (hs s) x (wsec s) (err s) (resumed s) (cauth s) (psk s) (dhe s) (tick s) (status s) (lastccs s) (usingpsk s) (hrr s) (early s) (tickkeys s) (gotcr s) (dtls s) (cookie s) (acc s) (tr s) (snap s).
 Definition set_wsec (s : hst) (x : bool) : hst :=
-  mkst (server s) (v13 s) (hs s) (rsec s) x (err s) (resumed s) (cauth s) (psk s) (dhe s) (tick s) (status s) (lastccs s) (usingpsk s) (hrr s) (early s) (tickkeys s) (gotcr s) (acc s) (tr s) (snap s).
+  mkst (server s) (v13 s) (hs s) (rsec s) x (err s) (resumed s) (cauth s) (psk s) (dhe s) (tick s) (status s) (lastccs s) (usingpsk s) (hrr s) (early s) (tickkeys s) (gotcr s) (dtls s) (cookie s) (acc s) (tr s) (snap s).
 Definition set_err (s : hst) (x : bool) : hst :=
-  mkst (server s) (v13 s) (hs s) (rsec s) (wsec s) x (resumed s) (cauth s) (psk s) (dhe s) (tick s) (status s) (lastccs s) (usingpsk s) (hrr s) (early s) (tickkeys s) (gotcr s) (acc s) (tr s) (snap s).
+  mkst (server s) (v13 s) (hs s) (rsec s) (wsec s) x (resumed s) (cauth s) (psk s) (dhe s) (tick s) (status s) (lastccs s) (usingpsk s) (hrr s) (early s) (tickkeys s) (gotcr s) (dtls s) (cookie s) (acc s) (tr s) (snap s).
 Definition set_resumed (s : hst) (x : bool) : hst :=
-  mkst (server s) (v13 s) (hs s) (rsec s) (wsec s) (err s) x (cauth s) (psk s) (dhe s) (tick s) (status s) (lastccs s) (usingpsk s) (hrr s) (early s) (tickkeys s) (gotcr s) (acc s) (tr s) (snap s).
+  mkst (server s) (v13 s) (hs s) (rsec s) (wsec s) (err s) x (cauth s) (psk s) (dhe s) (tick s) (status s) (lastccs s) (usingpsk s) (hrr s) (early s) (tickkeys s) (gotcr s) (dtls s) (cookie s) (acc s) (tr s) (snap s).
 Definition set_cauth (s : hst) (x : bool) : hst :=
-  mkst (server s) (v13 s) (hs s) (rsec s) (wsec s) (err s) (resumed s) x (psk s) (dhe s) (tick s) (status s) (lastccs s) (usingpsk s) (hrr s) (early s) (tickkeys s) (gotcr s) (acc s) (tr s) (snap s).
+  mkst (server s) (v13 s) (hs s) (rsec s) (wsec s) (err s) (resumed s) x (psk s) (dhe s) (tick s) (status s) (lastccs s) (usingpsk s) (hrr s) (early s) (tickkeys s) (gotcr s) (dtls s) (cookie s) (acc s) (tr s) (snap s).
 Definition set_psk (s : hst) (x : bool) : hst :=
-  mkst (server s) (v13 s) (hs s) (rsec s) (wsec s) (err s) (resumed s) (cauth s) x (dhe s) (tick s) (status s) (lastccs s) (usingpsk s) (hrr s) (early s) (tickkeys s) (gotcr s) (acc s) (tr s) (snap s).
+  mkst (server s) (v13 s) (hs s) (rsec s) (wsec s) (err s) (resumed s) (cauth s) x (dhe s) (tick s) (status s) (lastccs s) (usingpsk s) (hrr s) (early s) (tickkeys s) (gotcr s) (dtls s) (cookie s) (acc s) (tr s) (snap s).
 Definition set_dhe (s : hst) (x : bool) : hst :=
-  mkst (server s) (v13 s) (hs s) (rsec s) (wsec s) (err s) (resumed s) (cauth s) (psk s) x (tick s) (status s) (lastccs s) (usingpsk s) (hrr s) (early s) (tickkeys s) (gotcr s) (acc s) (tr s) (snap s).
+  mkst (server s) (v13 s) (hs s) (rsec s) (wsec s) (err s) (resumed s) (cauth s) (psk s) x (tick s) (status s) (lastccs s) (usingpsk s) (hrr s) (early s) (tickkeys s) (gotcr s) (dtls s) (cookie s) (acc s) (tr s) (snap s).
 Definition set_tick (s : hst) (x : Z) : hst :=
-  mkst (server s) (v13 s) (hs s) (rsec s) (wsec s) (err s) (resumed s) (cauth s) (psk s) (dhe s) x (status s) (lastccs s) (usingpsk s) (hrr s) (early s) (tickkeys s) (gotcr s) (acc s) (tr s) (snap s).
+  mkst (server s) (v13 s) (hs s) (rsec s) (wsec s) (err s) (resumed s) (cauth s) (psk s) (dhe s) x (status s) (lastccs s) (usingpsk s) (hrr s) (early s) (tickkeys s) (gotcr s) (dtls s) (cookie s) (acc s) (tr s) (snap s).
 Definition set_status (s : hst) (x : bool) : hst :=
-  mkst (server s) (v13 s) (hs s) (rsec s) (wsec s) (err s) (resumed s) (cauth s) (psk s) (dhe s) (tick s) x (lastccs s) (usingpsk s) (hrr s) (early s) (tickkeys s) (gotcr s) (acc s) (tr s) (snap s).
+  mkst (server s) (v13 s) (hs s) (rsec s) (wsec s) (err s) (resumed s) (cauth s) (psk s) (dhe s) (tick s) x (lastccs s) (usingpsk s) (hrr s) (early s) (tickkeys s) (gotcr s) (dtls s) (cookie s) (acc s) (tr s) (snap s).
 Definition set_lastccs (s : hst) (x : bool) : hst :=
-  mkst (server s) (v13 s) (hs s) (rsec s) (wsec s) (err s) (resumed s) (cauth s) (psk s) (dhe s) (tick s) (status s) x (usingpsk s) (hrr s) (early s) (tickkeys s) (gotcr s) (acc s) (tr s) (snap s).
+  mkst (server s) (v13 s) (hs s) (rsec s) (wsec s) (err s) (resumed s) (cauth s) (psk s) (dhe s) (tick s) (status s) x (usingpsk s) (hrr s) (early s) (tickkeys s) (gotcr s) (dtls s) (cookie s) (acc s) (tr s) (snap s).
 Definition set_usingpsk (s : hst) (x : bool) : hst :=
-  mkst (server s) (v13 s) (hs s) (rsec s) (wsec s) (err s) (resumed s) (cauth s) (psk s) (dhe s) (tick s) (status s) (lastccs s) x (hrr s) (early s) (tickkeys s) (gotcr s) (acc s) (tr s) (snap s).
+  mkst (server s) (v13 s) (hs s) (rsec s) (wsec s) (err s) (resumed s) (cauth s) (psk s) (dhe s) (tick s) (status s) (lastccs s) x (hrr s) (early s) (tickkeys s) (gotcr s) (dtls s) (cookie s) (acc s) (tr s) (snap s).
 Definition set_hrr (s : hst) (x : bool) : hst :=
-  mkst (server s) (v13 s) (hs s) (rsec s) (wsec s) (err s) (resumed s) (cauth s) (psk s) (dhe s) (tick s) (status s) (lastccs s) (usingpsk s) x (early s) (tickkeys s) (gotcr s) (acc s) (tr s) (snap s).
+  mkst (server s) (v13 s) (hs s) (rsec s) (wsec s) (err s) (resumed s) (cauth s) (psk s) (dhe s) (tick s) (status s) (lastccs s) (usingpsk s) x (early s) (tickkeys s) (gotcr s) (dtls s) (cookie s) (acc s) (tr s) (snap s).
 Definition set_early (s : hst) (x : bool) : hst :=
-  mkst (server s) (v13 s) (hs s) (rsec s) (wsec s) (err s) (resumed s) (cauth s) (psk s) (dhe s) (tick s) (status s) (lastccs s) (usingpsk s) (hrr s) x (tickkeys s) (gotcr s) (acc s) (tr s) (snap s).
+  mkst (server s) (v13 s) (hs s) (rsec s) (wsec s) (err s) (resumed s) (cauth s) (psk s) (dhe s) (tick s) (status s) (lastccs s) (usingpsk s) (hrr s) x (tickkeys s) (gotcr s) (dtls s) (cookie s) (acc s) (tr s) (snap s).
 Definition set_tickkeys (s : hst) (x : bool) : hst :=
-  mkst (server s) (v13 s) (hs s) (rsec s) (wsec s) (err s) (resumed s) (cauth s) (psk s) (dhe s) (tick s) (status s) (lastccs s) (usingpsk s) (hrr s) (early s) x (gotcr s) (acc s) (tr s) (snap s).
+  mkst (server s) (v13 s) (hs s) (rsec s) (wsec s) (err s) (resumed s) (cauth s) (psk s) (dhe s) (tick s) (status s) (lastccs s) (usingpsk s) (hrr s) (early s) x (gotcr s) (dtls s) (cookie s) (acc s) (tr s) (snap s).
 Definition set_gotcr (s : hst) (x : bool) : hst :=
-  mkst (server s) (v13 s) (hs s) (rsec s) (wsec s) (err s) (resumed s) (cauth s) (psk s) (dhe s) (tick s) (status s) (lastccs s) (usingpsk s) (hrr s) (early s) (tickkeys s) x (acc s) (tr s) (snap s).
+  mkst (server s) (v13 s) (hs s) (rsec s) (wsec s) (err s) (resumed s) (cauth s) (psk s) (dhe s) (tick s) (status s) (lastccs s) (usingpsk s) (hrr s) (early s) (tickkeys s) x (dtls s) (cookie s) (acc s) (tr s) (snap s).
+Definition set_dtls (s : hst) (x : bool) : hst :=
+  mkst (server s) (v13 s) (hs s) (rsec s) (wsec s) (err s) (resumed s) (cauth s) (psk s) (dhe s) (tick s) (status s) (lastccs s) (usingpsk s) (hrr s) (early s) (tickkeys s) (gotcr s) x (cookie s) (acc s) (tr s) (snap s).
+Definition set_cookie (s : hst) (x : bool) : hst :=
+  mkst (server s) (v13 s) (hs s) (rsec s) (wsec s) (err s) (resumed s) (cauth s) (psk s) (dhe s) (tick s) (status s) (lastccs s) (usingpsk s) (hrr s) (early s) (tickkeys s) (gotcr s) (dtls s) x (acc s) (tr s) (snap s).
 Definition set_acc (s : hst) (x : list item) : hst :=
-  mkst (server s) (v13 s) (hs s) (rsec s) (wsec s) (err s) (resumed s) (cauth s) (psk s) (dhe s) (tick s) (status s) (lastccs s) (usingpsk s) (hrr s) (early s) (tickkeys s) (gotcr s) x (tr s) (snap s).
+  mkst (server s) (v13 s) (hs s) (rsec s) (wsec s) (err s) (resumed s) (cauth s) (psk s) (dhe s) (tick s) (status s) (lastccs s) (usingpsk s) (hrr s) (early s) (tickkeys s) (gotcr s) (dtls s) (cookie s) x (tr s) (snap s).
 Definition set_tr (s : hst) (x : list tent) : hst :=
-  mkst (server s) (v13 s) (hs s) (rsec s) (wsec s) (err s) (resumed s) (cauth s) (psk s) (dhe s) (tick s) (status s) (lastccs s) (usingpsk s) (hrr s) (early s) (tickkeys s) (gotcr s) (acc s) x (snap s).
+  mkst (server s) (v13 s) (hs s) (rsec s) (wsec s) (err s) (resumed s) (cauth s) (psk s) (dhe s) (tick s) (status s) (lastccs s) (usingpsk s) (hrr s) (early s) (tickkeys s) (gotcr s) (dtls s) (cookie s) (acc s) x (snap s).
 Definition set_snap (s : hst) (x : list tent) : hst :=
-  mkst (server s) (v13 s) (hs s) (rsec s) (wsec s) (err s) (resumed s) (cauth s) (psk s) (dhe s) (tick s) (status s) (lastccs s) (usingpsk s) (hrr s) (early s) (tickkeys s) (gotcr s) (acc s) (tr s) x.
+  mkst (server s) (v13 s) (hs s) (rsec s) (wsec s) (err s) (resumed s) (cauth s) (psk s) (dhe s) (tick s) (status s) (lastccs s) (usingpsk s) (hrr s) (early s) (tickkeys s) (gotcr s) (dtls s) (cookie s) (acc s) (tr s) x.
 
 Inductive out :=
 | OFatal (d : Z)              (* ssl->err := d: fatal alert d written, SSL_FLAGS_ERROR set *)
@@ -109,6 +126,9 @@ Inductive out :=
 | OAccept (respond : bool)    (* message consumed; a flight is written or not *)
 | OWarn (d : Z)               (* refused with a WARNING alert, session unchanged (no_renegotiation: writeAlert forces the level) *)
 | OIgnore                     (* record consumed, nothing happens *)
+| ODrop (retx : bool)         (* DTLS: message / ChangeCipherSpec dropped, state untouched; retx: DTLS_RETRANSMIT - the application is asked to
+                                 send the last flight again *)
+| OHvr                        (* DTLS server: cookie-less ClientHello answered with HelloVerifyRequest, no state kept (RFC 6347 4.2.1) *)
 | ORefuse.                    (* session already dead: entry guard of matrixSslDecode *)
 
 Definition fatal (s : hst) (d : Z) : hst * out := (set_err s true, OFatal d).
@@ -122,7 +142,7 @@ Definition CREQ := c_SSL_HS_CERTIFICATE_REQUEST.  Definition SHD := c_SSL_HS_SER
 Definition CVFY := c_SSL_HS_CERTIFICATE_VERIFY.   Definition CKE := c_SSL_HS_CLIENT_KEY_EXCHANGE.
 Definition FIN := c_SSL_HS_FINISHED.         Definition CSTAT := c_SSL_HS_CERTIFICATE_STATUS.
 Definition EOED := c_SSL_HS_EOED.            Definition EE := c_SSL_HS_ENCRYPTED_EXTENSION.
-Definition DONE := c_SSL_HS_DONE.
+Definition DONE := c_SSL_HS_DONE.          Definition HVR := c_SSL_HS_HELLO_VERIFY_REQUEST.
 Definition S_START := c_SSL_HS_TLS_1_3_START.       Definition S_RECVD_CH := c_SSL_HS_TLS_1_3_RECVD_CH.
 Definition S_WAIT_SH := c_SSL_HS_TLS_1_3_WAIT_SH.   Definition S_WAIT_EE := c_SSL_HS_TLS_1_3_WAIT_EE.
 Definition S_WAIT_CERT_CR := c_SSL_HS_TLS_1_3_WAIT_CERT_CR.  Definition S_WAIT_CERT := c_SSL_HS_TLS_1_3_WAIT_CERT.
@@ -234,10 +254,12 @@ Inductive gres :=
 | GRej (d : Z)        (* refused before anything is hashed: state unchanged, fatal alert d *)
 | GNoReneg            (* renegotiation request on a completed session: no_renegotiation warning, nothing changes *)
 | GIgn                (* HelloRequest while a ClientHello of ours is outstanding: dropped *)
+| GDrop (retx : bool) (* DTLS: dropped because of its message_seq (future: silently; seen before: DTLS_RETRANSMIT) *)
 | GPass (s : hst).    (* hsStateDetermined; [hs s] names the handler that runs *)
 
-(* parseSSLHandshake up to hsStateDetermined.  Rehandshakes are compiled out. *)
-Definition gate12 (s : hst) (t : Z) : gres :=
+(* parseSSLHandshake up to hsStateDetermined.  Rehandshakes are compiled out.  [tail]: what the end of the mismatch block does
+   (TLS: unexpected_message; DTLS: the HelloVerifyRequest exception and the final message_seq test come first) *)
+Definition gate12g (s : hst) (t : Z) (tail : gres) : gres :=
   if (if server s then eqb t CH && eqb (hs s) DONE else eqb t HREQ && eqb (hs s) DONE)
   then GNoReneg
   else if negb (eqb t (hs s)) && negb (eqb t CH && eqb (hs s) DONE && server s)      (* server only: fix C06-1 *)
@@ -249,15 +271,32 @@ Definition gate12 (s : hst) (t : Z) : gres :=
     else if eqb (hs s) CSTAT then GRej UNEXPECTED                                        (* USE_OCSP_MUST_STAPLE *)
     else if psk s && eqb t SHD && eqb (hs s) SKE then
       if dhe s then GRej UNEXPECTED else GPass (set_hs s SHD)
-    else GRej UNEXPECTED
+    else tail
   else
     (* hsStateDetermined: a ClientHello in DONE would reset the context (server, rehandshake builds only) *)
     if eqb t CH && eqb (hs s) DONE then GPass (set_hs s CH) else GPass s.
+Definition gate12 (s : hst) (t : Z) : gres := gate12g s t (GRej UNEXPECTED).
 
-(* the switch (ssl->hsState) of parseSSLHandshake has a case for these states only (DTLS HelloVerifyRequest aside) *)
+(* the same on a DTLS session (sslDecode.c 2127-2158, 2330-2364).  After the rehandshake checks the message_seq is looked at:
+   a future one is ignored, one seen before (other than 0) is a retransmission.  A message with the expected message_seq (or 0)
+   goes through the type test; at the end of the mismatch block a HelloVerifyRequest is let through to a client that awaits
+   ServerHello and holds no cookie yet, the EXPECTED message_seq with a wrong type is fatal, an old one is a retransmission. *)
+Definition dtls_tail (s : hst) (t : Z) (c : mcls) : gres :=
+  if eqb t HVR && eqb (hs s) SH && negb (cookie s) then GPass (set_hs s HVR)
+  else match c with MExp => GRej UNEXPECTED | MZero => GDrop true | _ => GRej UNEXPECTED end.
+Definition gate12d (s : hst) (t : Z) (c : mcls) : gres :=
+  if negb (dtls s) then gate12 s t
+  else if (if server s then eqb t CH && eqb (hs s) DONE else eqb t HREQ && eqb (hs s) DONE) then GNoReneg
+  else match c with
+       | MFut => GDrop false
+       | MStale => GDrop true
+       | _ => gate12g s t (dtls_tail s t c)
+       end.
+
+(* the switch (ssl->hsState) of parseSSLHandshake has a case for these states only (HelloVerifyRequest: USE_DTLS builds) *)
 Definition has_case12 (h : Z) : bool :=
   eqb h CH || eqb h CKE || eqb h FIN || eqb h HREQ || eqb h SH || eqb h CERT || eqb h CSTAT || eqb h NST ||
-  eqb h SHD || eqb h CREQ || eqb h CVFY || eqb h SKE.
+  eqb h SHD || eqb h CREQ || eqb h CVFY || eqb h SKE || eqb h HVR.
 
 (* the handlers: [hs s] is the state determined by the gate; the message is hashed already *)
 Definition handler12 (s : hst) (m : hmsg) : hst * out :=
@@ -283,6 +322,11 @@ Definition handler12 (s : hst) (m : hmsg) : hst * out :=
         let s1 := set_dhe (set_psk (set_resumed s r) p) d in
         if resumed s1 then (set_wsec (wrote (set_hs s1 FIN) CH) true, OAccept true)
         else (wrote (set_hs s1 (if cauth s1 then CERT else CKE)) CH, OAccept true)
+    | BHelloNoCookie =>
+        (* DTLS, not yet protected: HelloVerifyRequest is written, hsState stays CLIENT_HELLO, the session found is cleared again
+           (hsDecode.c 296-312); [step12] hands back the untouched state.  (On a protected connection - a rehandshake - the code
+           goes on without a cookie; unreachable here.) *)
+        if dtls s && negb (rsec s) then (s, OHvr) else fail s
     | _ => fail s
     end
   else if eqb h SH then
@@ -292,7 +336,7 @@ Definition handler12 (s : hst) (m : hmsg) : hst * out :=
         if tk && negb (eqb (tick s) T_SENT_EMPTY || eqb (tick s) T_SENT_TICKET) then fatal s c_SSL_ALERT_ILLEGAL_PARAMETER
         else
           let tk' := if tk then T_RECVD_EXT else if eqb (tick s) T_SENT_TICKET then T_IN_LIMBO else tick s in
-          let s1 := set_status (set_dhe (set_psk (set_resumed (set_tick s tk') r) p) d) st in
+          let s1 := set_cookie (set_status (set_dhe (set_psk (set_resumed (set_tick s tk') r) p) d) st) false in   (* cookie freed: hsDecode.c 1568 *)
           (set_hs s1 (if resumed s1 then FIN else if psk s1 then SKE else CERT), OAccept false)
     | _ => fail s
     end
@@ -307,19 +351,22 @@ Definition handler12 (s : hst) (m : hmsg) : hst * out :=
   else if eqb h CREQ then (set_hs s SHD, OAccept false)
   else if eqb h SHD then (set_wsec (wrote (set_hs s FIN) SHD) true, OAccept true)
   else if eqb h NST then (set_hs (set_tick s T_INIT) FIN, OAccept false)
+  else if eqb h HVR then (set_cookie (set_hs s SH) true, OAccept true)      (* cookie kept, ClientHello is written again (sslDecode.c 3058-3118) *)
   else (* HREQ: unreachable with rehandshakes compiled out *) (s, OAccept true).
 
 Definition step12 (s : hst) (m : hmsg) : hst * out :=
-  match gate12 s (m_typ m) with
+  match gate12d s (m_typ m) (m_cls m) with
   | GRej d => fatal s d
   | GNoReneg => (s, OWarn c_SSL_ALERT_NO_RENEGOTIATION)
   | GIgn => (s, OIgnore)
+  | GDrop r => (s, ODrop r)
   | GPass s1 =>
       (* snapshot for Finished BEFORE the message is hashed; then sslUpdateHSHash; then the handler *)
       let s2 := if eqb (hs s1) FIN then set_snap s1 (tr s1) else s1 in
       let s3 := set_tr s2 (tr s2 ++ [Rx (m_typ m)]) in
       match handler12 s3 m with
       | (s4, OAccept r) => (set_lastccs (set_acc s4 (acc s4 ++ [MHs m])) false, OAccept r)
+      | (_, OHvr) => (s, OHvr)            (* stateless: nothing of this ClientHello is kept *)
       | r => r
       end
   end.
@@ -327,7 +374,14 @@ Definition step12 (s : hst) (m : hmsg) : hst * out :=
 (* ChangeCipherSpec record (well formed): same decisions as Sess.SessModel.decode12, plus the two refusals of fix C06-2 *)
 Definition ccs12 (s : hst) : hst * out :=
   let ok (s1 : hst) := (set_lastccs (set_acc s1 (acc s1 ++ [MCcs])) true, OAccept false) in
-  if eqb (hs s) FIN then
+  if dtls s then
+    (* DTLS (sslDecode.c 1327-1352): outside FINISHED the record is skipped ("possible to get the changeCipherSpec message out of
+       order"); in FINISHED it is taken - also a further one, which is how the ChangeCipherSpec of a retransmitted flight looks
+       (the sender bumps its epoch with every ChangeCipherSpec it sends) - unless the promised NewSessionTicket is outstanding *)
+    if eqb (hs s) FIN then
+      if negb (server s) && eqb (tick s) T_RECVD_EXT then fatal s UNEXPECTED else ok (set_rsec s true)
+    else (s, ODrop false)
+  else if eqb (hs s) FIN then
     if lastccs s then fatal s UNEXPECTED
     else if negb (server s) && eqb (tick s) T_RECVD_EXT then fatal s UNEXPECTED
     else ok (set_rsec s true)
@@ -354,17 +408,37 @@ Fixpoint run (s : hst) (is : list input) : hst * list out :=
 Inductive cfg :=
 | Server (v13 cauth tickkeys : bool)   (* TLS 1.3 enabled (session starts on the 1.3 track); client authentication requested;
                                           session-ticket keys loaded (a TLS 1.3 NewSessionTicket is sent) *)
-| Client (v13 : bool) (tick : Z).      (* TLS 1.3 enabled; sid->sessionTicketState once the ClientHello is written
+| Client (v13 : bool) (tick : Z)       (* TLS 1.3 enabled; sid->sessionTicketState once the ClientHello is written
                                           (T_NOSID: no session id object) *)
-Definition c_server (c : cfg) : bool := match c with Server _ _ _ => true | Client _ _ => false end.
-Definition c_v13 (c : cfg) : bool := match c with Server v _ _ => v | Client v _ => v end.
-Definition c_cauth (c : cfg) : bool := match c with Server _ a _ => a | Client _ _ => false end.
-Definition c_tickkeys (c : cfg) : bool := match c with Server _ _ k => k | Client _ _ => false end.
-Definition c_tick (c : cfg) : Z := match c with Server _ _ _ => T_NOSID | Client _ t => t end.
+| DServer (cauth : bool)               (* DTLS 1.0 / 1.2 server *)
+| DClient (tick : Z).                  (* DTLS 1.0 / 1.2 client *)
+Definition c_server (c : cfg) : bool := match c with Server _ _ _ | DServer _ => true | _ => false end.
+Definition c_v13 (c : cfg) : bool := match c with Server v _ _ => v | Client v _ => v | _ => false end.
+Definition c_cauth (c : cfg) : bool := match c with Server _ a _ => a | DServer a => a | _ => false end.
+Definition c_tickkeys (c : cfg) : bool := match c with Server _ _ k => k | _ => false end.
+Definition c_tick (c : cfg) : Z := match c with Client _ t => t | DClient t => t | _ => T_NOSID end.
+Definition c_dtls (c : cfg) : bool := match c with DServer _ | DClient _ => true | _ => false end.
 Definition init (c : cfg) : hst :=
   mkst (c_server c) (c_v13 c)
        (if c_server c then (if c_v13 c then S_START else CH) else (if c_v13 c then S_WAIT_SH else SH))
        false false false
        false (c_cauth c) false false (c_tick c) false false
-       false false false (c_tickkeys c) false
+       false false false (c_tickkeys c) false (c_dtls c) false
        [] (if c_server c then [] else [Tx CH]) [].
+
+(* ---- DTLS sessions with concrete message_seq numbers: ssl->lastMsn lives beside the state; the class of a message is computed
+   from it, and it becomes the message_seq of every message that was parsed to the end (sslDecode.c 3129-3134) *)
+Inductive dinput := DCcs | DHs (t : Z) (b : body) (msn : Z).
+Record dst := mkdst { d_core : hst; d_last : Z }.
+Definition dinit (c : cfg) : dst := mkdst (init c) (-1).
+Definition dabs (d : dst) (i : dinput) : input :=
+  match i with DCcs => ICcs | DHs t b msn => IHs (mkmsg t b (classify (d_last d) msn)) end.
+Definition dstep (d : dst) (i : dinput) : dst * out :=
+  let '(s', o) := step (d_core d) (dabs d i) in
+  (mkdst s' (match i, o with
+             | DHs _ _ msn, OAccept _ => msn
+             | DHs _ _ msn, OHvr => msn
+             | _, _ => d_last d
+             end), o).
+Fixpoint drun (d : dst) (is : list dinput) : dst :=
+  match is with [] => d | i :: r => drun (fst (dstep d i)) r end.
